@@ -209,11 +209,15 @@ def run(R):
         sn = short(c.name)
         if sn in (ENGINE + "get_group_value", ENGINE + "get_group_aggregator", ENGINE + "get_group"):
             n_iso += 1
-            ko = F.origins(ua, c.args[1], depth=6)
+            def oty(o):
+                """type of the argument (or of the field of a parameter struct such as `AggregateSlot { group_key, aggregate_index }`) an origin names"""
+                fl = [e for e in (o.place or {}).get("p", []) if isinstance(e, dict) and "ty" in e and "f" in e]
+                return fl[-1]["ty"] if fl else ua.local_ty(o.arg)
+            ko = F.origins(ua, c.args[1], depth=12)
             key_ok = any(o.kind == "call" and short(o.call.name).endswith("GroupKey as core::clone::Clone>::clone") for o in ko) and \
-                any(o.kind == "arg" and ua.local_ty(o.arg).endswith("aggregate_execution::GroupKey") for o in ko)
-            io = F.origins(ua, c.args[2], depth=6, through_calls=False)
-            idx_ok = bool(io) and all(o.kind == "arg" and ua.local_ty(o.arg) == "usize" for o in io)
+                any(o.kind == "arg" and oty(o).endswith("aggregate_execution::GroupKey") for o in ko)
+            io = F.origins(ua, c.args[2], depth=12, through_calls=False)
+            idx_ok = bool(io) and all(o.kind == "arg" and oty(o) == "usize" for o in io)
             k = "update_aggregate|%s" % sn.split("::")[-1]
             if key_ok and idx_ok:
                 R.ok("C04.isolation", k, "(group_key.clone(), aggregate_index)", c.loc(), nontrivial=(n_iso <= 3))
@@ -272,8 +276,22 @@ def run(R):
                 # the aggregate index is the usize parameter of update_aggregate (wherever it sits in the signature)
                 callee = R.need_fn(ENGINE + "update_aggregate")
                 upos = [i_ for i_ in range(1, callee.arg_count + 1) if callee.local_ty(i_) == "usize"]
-                if upos and upos[0] - 1 < len(c.args):
-                    cand = (ch, c, norm(sum_leaves(ch, c.args[upos[0] - 1])))
+                idx_op = c.args[upos[0] - 1] if upos and upos[0] - 1 < len(c.args) else None
+                if idx_op is None:
+                    # ... or the usize field of a parameter struct (`AggregateSlot { group_key, aggregate_index }`) built at the call site
+                    for i_ in range(1, callee.arg_count + 1):
+                        a_ = P.adts.get(re.sub(r"<.*$", "", callee.local_ty(i_)))
+                        if not a_ or i_ - 1 >= len(c.args) or c.args[i_ - 1].get("k") not in ("copy", "move"):
+                            continue
+                        uf = [n_ for n_, fl in enumerate(a_["variants"][0]["fields"]) if fl["ty"] == "usize"] if len(a_["variants"]) == 1 else []
+                        if len(uf) != 1:
+                            continue
+                        built_ = [s2 for i2, s2 in ch.stmts() if s2["k"] == "assign" and s2["pl"]["l"] == c.args[i_ - 1]["pl"]["l"] and not s2["pl"]["p"]
+                                  and s2["rv"]["k"] == "aggr" and len(s2["rv"]["ops"]) > uf[0]]
+                        if len(built_) == 1:
+                            idx_op = built_[0]["rv"]["ops"][uf[0]]
+                if idx_op is not None:
+                    cand = (ch, c, norm(sum_leaves(ch, idx_op)))
                     # of the two call sites (select list / HAVING) the HAVING one adds an offset
                     if writer is None or any(x[0] == "len" for x in cand[2]):
                         writer = cand
